@@ -128,6 +128,16 @@ class Program:
             for t in tgts:
                 if isinstance(t, ast.Name) and n.value is not None:
                     st[t.id] = ("const", n.value)
+                elif isinstance(t, (ast.Tuple, ast.List)) and n.value is not None and all(isinstance(e_, ast.Name) for e_ in t.elts):
+                    # A, B, C = <sequence>: each name is the element at its position (a generator is materialised first)
+                    seq = n.value
+                    if isinstance(seq, ast.GeneratorExp):
+                        seq = ast.Call(func=ast.Name(id="tuple", ctx=ast.Load()), args=[seq], keywords=[])
+                    for i_, e_ in enumerate(t.elts):
+                        sub = ast.Subscript(value=seq, slice=ast.Constant(value=i_), ctx=ast.Load())
+                        ast.copy_location(sub, n)
+                        ast.fix_missing_locations(sub)
+                        st[e_.id] = ("const", sub)
         elif isinstance(n, ast.If):
             # `if __name__ == "__main__":` blocks and similar are not part of the library
             pass
